@@ -47,6 +47,7 @@ type Engine struct {
 	localAlias           map[string]map[string]string // function key -> contract name -> local name (rebind.go)
 	unkIdents            map[string]bool              // identifiers a clause of the current function could not resolve
 	noRebind             bool
+	assumeSkips          int // clauses that could not be assumed because they could not be evaluated
 	dropHints            map[string]bool // functions whose unevaluable loop invariants are not used (rebind.go)
 	witnessCache         map[string]*witnessResult
 	refPayload           map[*Term]IfaceV
